@@ -183,12 +183,12 @@ def k16_connect_cycles(ctx) -> None:
         ok = False
         if inner is not None and enum and isinstance(enum[0].target, ast.Tuple):
             i, vtx = norm(enum[0].target.elts[0]), norm(enum[0].target.elts[1])
-            path_txt = norm(enum[0].iter.args[0])
+            path_txt = norm(D.expanded(f, enum[0].iter.args[0]))
             base = path_txt[:-5] if path_txt.endswith("[:-1]") else path_txt
             new_end = norm(c.args[1])
             gt = C.guard_texts(f, c)
             on_cycle = (f"self.equivalent({vtx}, {new_end})", True) in gt or (f"self.equivalent({new_end}, {vtx})", True) in gt
-            over = isinstance(inner, ast.For) and norm(inner.iter) == f"{base}[{i}:]" and norm(inner.target) == norm(c.args[0])
+            over = isinstance(inner, ast.For) and norm(D.expanded(f, inner.iter)) == f"{base}[{i}:]" and norm(inner.target) == norm(c.args[0])
             ok = on_cycle and over
         if ok:
             ctx.ok("K16", "connect_cycles merges path[i:] with the new end only when path[i] is already equivalent to it (a closed cycle)")
@@ -263,7 +263,8 @@ def k17_find_path(ctx) -> None:
                           "is replayed rule by rule, and a step that was never recorded in that direction has no rule")
     # a vertex is marked as done when it has been expanded, not when it is first seen: the
     # loop skips popped paths whose end is marked, so marking at enqueue time expands nothing
-    skips_popped = [n for n in walk_local(f) if isinstance(n, ast.Continue) and any(p and PT.match(PT.compile_pattern("_M_e in _M_vis"), _t(t)) is not None for t, p in C.guard_texts(f, n))]
+    skips_popped = [n for n in walk_local(f) if isinstance(n, ast.Continue) and not (ext and any(n is x for x in ast.walk(ext[0])))
+                    and any(p and PT.match(PT.compile_pattern("_E_e in _M_vis"), _t(t)) is not None for t, p in C.guard_texts(f, n))]
     adds = [c for c in walk_local(f) if isinstance(c, ast.Call) and isinstance(c.func, ast.Attribute) and c.func.attr == "add" and isinstance(c.func.value, ast.Name)]
     if ext and adds:
         exp_var = norm(ext[0].target)
